@@ -19,6 +19,11 @@ class Unsupported(Exception):
         self.why = why
 
 
+import os as _os
+MSB_FIRST = _os.environ.get('GBSA_BDD_ORDER', 'msb') == 'msb'
+MSB_FIRST_TOP = 255
+
+
 class BDD:
     FALSE = 0
     TRUE = 1
@@ -39,7 +44,7 @@ class BDD:
             if r >= 256:
                 raise Unsupported('too many symbols')
             self.rank[sym] = r
-        v = bit * 256 + r
+        v = (MSB_FIRST_TOP - bit) * 256 + r if MSB_FIRST else bit * 256 + r
         self.names[v] = (sym, bit)
         return self.mk(v, 0, 1)
 
@@ -103,6 +108,25 @@ class BDD:
 
     def IMPLIES(self, a, b):
         return self.ite(a, b, 1) == 1
+
+    def exists(self, f, quantify):
+        """existential quantification of every variable whose symbol name satisfies quantify(name)"""
+        memo = {}
+        node = self.node
+        names = self.names
+
+        def rec(n):
+            if n <= 1:
+                return n
+            r = memo.get(n)
+            if r is not None:
+                return r
+            v, lo, hi = node[n]
+            a, b = rec(lo), rec(hi)
+            r = self.OR(a, b) if quantify(names[v][0]) else self.ite(self.mk(v, 0, 1), b, a)
+            memo[n] = r
+            return r
+        return rec(f)
 
     def sat_one(self, f):
         """one satisfying assignment {(sym, bit): 0/1} or None"""
